@@ -37,13 +37,16 @@ where
       let obs_trigger = {
         let enable_triggner_next = Arc::clone(&enable);
         let sctl_trigger_next = sctl.clone();
+        let sctl_trigger_error = sctl.clone();
 
         sctl.new_observer(
           move |serial, _| {
             *enable_triggner_next.write().unwrap() = true;
             sctl_trigger_next.upstream_abort_observe(&serial);
           },
-          |_, _| {},
+          move |_, e| {
+            sctl_trigger_error.sink_error(e);
+          },
           |_| {},
         )
       };
